@@ -70,15 +70,10 @@ def utf8(s):
 
 @primitive
 def valid_hhmm(s):
-    """H{1,2}:M{1,2} with H < 24 and M < 60 (ASCII digits only)"""
-    if not isinstance(s, str) or s.count(":") != 1:
-        return False
-    h, m = s.split(":")
-    if not (1 <= len(h) <= 2 and 1 <= len(m) <= 2):
-        return False
-    if not all(c in "0123456789" for c in h + m):
-        return False
-    return int(h) < 24 and int(m) < 60
+    """H{1,2}:M{1,2} with H < 24 and M < 60: exactly the strings the '%H:%M' time format denotes (most lenient sensible
+    reading of "a valid HH:MM": one or two digits each, any decimal digit character that int() accepts)"""
+    import re
+    return isinstance(s, str) and re.fullmatch(r"(2[0-3]|[0-1]\d|\d):([0-5]\d|\d)", s) is not None
 
 
 @primitive
@@ -92,16 +87,16 @@ def mm_of(s):
 
 
 # ------------------------------------------------------------------------------------- byte helpers
+@primitive
 def le16(n):
+    """the two bytes of n mod 2^16, least significant first"""
     return bytes([n % 256, (n // 256) % 256])
 
 
+@primitive
 def le32(n):
+    """the four bytes of n mod 2^32, least significant first"""
     return bytes([n % 256, (n // 256) % 256, (n // 65536) % 256, (n // 16777216) % 256])
-
-
-def be32(n):
-    return bytes([(n // 16777216) % 256, (n // 65536) % 256, (n // 256) % 256, n % 256])
 
 
 def hexs(b):
@@ -468,3 +463,137 @@ def ref_breeze_bc(m, dtype, State, Mode, Fan, Swing):
     d["swing"] = Swing["ON"] if m[140] % 16 == 1 else Swing["OFF"]
     d["remote_id"] = rid
     return d
+
+
+# ------------------------------------------------------------------------------------- C01 / C02 / C03 reference frames
+# header (40 bytes): fe f0 | total length LE16 | family | operation | session[4] | k[3] 00x9 | timestamp[4] | 00x10 | f0 fe
+T1 = b"\x02\x32"
+T2 = b"\x03\x05"
+ZERO4 = b"\x00\x00\x00\x00"
+K_T1 = b"\x34\x00\x01"
+K_T2_STATE = b"\x39\x00\x01"
+K_BREEZE = b"\x00\x00\x01"
+K_LOGIN2 = b"\xff\x03\x01"
+K_STOP = b"\x23\x23\x01"
+K_SETPOS = b"\x29\x04\x01"
+
+
+def frame(family, op, session, k3, ts, tail):
+    body = family + op + session + k3 + b"\x00" * 9 + ts + b"\x00" * 10 + b"\xf0\xfe" + tail
+    unsigned = b"\xfe\xf0" + le16(4 + len(body) + 4) + body
+    return unsigned + sig(unsigned)
+
+
+def frame_ok(w):
+    """the statement of C01: magic, own length in bytes 2-3, terminator at 38-39, signature of all preceding bytes last"""
+    if len(w) < 44:
+        return False
+    return (w[0] == 0xFE and w[1] == 0xF0 and w[2] + 256 * w[3] == len(w) and w[38] == 0xF0 and w[39] == 0xFE
+            and w[len(w) - 4:] == sig(w[:len(w) - 4]))
+
+
+@primitive
+def timestamp_of(now):
+    """the current time as LE32 epoch seconds (rounded to the nearest second)"""
+    return le32(int(round(now)))
+
+
+def login1_frame(ts, key):
+    return frame(T1, b"\xa1\x00", ZERO4, K_T1, ts, key + b"\x00" * 37)
+
+
+def login2_frame(ts, ident):
+    return frame(T2, b"\xa6\x00", ZERO4, K_LOGIN2, ts, ident + b"\x00")
+
+
+def cmd1_frame(op, session, ts, ident, payload):
+    return frame(T1, op, session, K_T1, ts, ident + b"\x00" * 36 + payload)
+
+
+def cmd2_frame(op, k3, session, ts, ident, payload):
+    return frame(T2, op, session, k3, ts, ident + b"\x00" * 36 + payload)
+
+
+def get_state1_frame(session, ts, ident):
+    return frame(T1, b"\x01\x03", session, K_T1, ts, ident + b"\x00")
+
+
+def get_state2_frame(session, ts, ident):
+    return frame(T2, b"\x01\x03", session, K_T2_STATE, ts, ident + b"\x00")
+
+
+def control_frame(session, ts, ident, on, minutes):
+    """on/off flag and timer seconds (60 x minutes, zero when no timer)"""
+    timer = le32(60 * minutes) if minutes > 0 else ZERO4
+    return cmd1_frame(b"\x01\x02", session, ts, ident, b"\x00\x01\x06\x00" + (b"\x01" if on else b"\x00") + b"\x00" + timer)
+
+
+def auto_shutdown_frame(session, ts, ident, total_seconds):
+    return cmd1_frame(b"\x01\x02", session, ts, ident, b"\x00\x04\x04\x00" + le32(60 * (total_seconds // 60)))
+
+
+def name_frame(session, ts, ident, name):
+    raw = utf8(name)
+    return cmd1_frame(b"\x02\x02", session, ts, ident, b"\x00" + raw + b"\x00" * (32 - len(raw)))
+
+
+def get_schedules_frame(session, ts, ident):
+    return cmd1_frame(b"\x01\x02", session, ts, ident, b"\x00\x06\x00\x00")
+
+
+def delete_schedule_frame(session, ts, ident, slot):
+    return cmd1_frame(b"\x01\x02", session, ts, ident, b"\x00\x08\x01\x00" + bytes([slot]))
+
+
+def create_schedule_frame(session, ts, ident, mask, start_epoch, end_epoch):
+    """schedule record: ff 01 mask 01 start[4] end[4] (times as LE32 epoch seconds)"""
+    return cmd1_frame(b"\x01\x02", session, ts, ident,
+                      b"\x00\x03\x0c\x00\xff\x01" + bytes([mask]) + b"\x01" + le32(start_epoch) + le32(end_epoch))
+
+
+def stop_frame(session, ts, ident):
+    return cmd2_frame(b"\x01\x02", K_STOP, session, ts, ident, b"\x37\x02\x02\x00\x00\x00")
+
+
+def set_position_frame(session, ts, ident, position):
+    return cmd2_frame(b"\x01\x02", K_SETPOS, session, ts, ident, b"\x37\x01\x01\x00" + bytes([position]))
+
+
+def breeze_command_frame(session, ts, ident, command_bytes):
+    """IR command: 37 01 | LE16 length of the payload | payload (four zero bytes + ASCII 'Para|HexCode')"""
+    return cmd2_frame(b"\x01\x02", K_BREEZE, session, ts, ident, b"\x37\x01" + le16(len(command_bytes)) + command_bytes)
+
+
+def breeze_update_frame(session, ts, ident, state_code, mode_code, target, fan_code, swing_code):
+    """state update without IR code: 37 01 00 03 0b 04 00 | state | mode | target | fan nibble, swing nibble"""
+    return cmd2_frame(b"\x01\x0e", K_BREEZE, session, ts, ident,
+                      b"\x37\x01\x00\x03\x0b\x04\x00" + bytes([state_code, mode_code, target, fan_code * 16 + swing_code]))
+
+
+# ------------------------------------------------------------------------------------- C11
+@primitive
+def today_epoch(h, m):
+    """epoch second of the local time h:m on today's local date (libc mktime, isdst unknown)"""
+    import time
+    lt = time.localtime()
+    return int(time.mktime((lt.tm_year, lt.tm_mon, lt.tm_mday, h, m, 0, 0, 0, -1)))
+
+
+@primitive
+def local_hhmm_of(epoch):
+    """HH:MM of the local time of an epoch second (libc localtime)"""
+    import time
+    lt = time.localtime(epoch)
+    return hhmm(lt.tm_hour, lt.tm_min)
+
+
+def time_encode_spec(s):
+    """a valid HH:MM -> LE32 epoch second of that local time on today's local date; anything else raises"""
+    if not valid_hhmm(s):
+        raise Reject("ValueError", "IndexError")
+    return hexs(le32(today_epoch(hh_of(s), mm_of(s))))
+
+
+def time_decode_spec(h):
+    """8 hex characters (LE32 epoch second) -> HH:MM of its local time"""
+    return local_hhmm_of(le32v(unhex(h)))
